@@ -1,6 +1,7 @@
 package props
 
 import (
+	"time"
 	"bytes"
 	"fmt"
 	"io"
@@ -181,12 +182,96 @@ func c28Scenario() *explore.Scenario {
 	}
 }
 
-func c28Scenarios(thorough bool) []*explore.Scenario { return []*explore.Scenario{c28Scenario()} }
+// c28Framing — "calling it does not change what the connection subsequently sends", with the
+// default dynamic record sizing: two connections run the same script of writes, one of them with
+// GetOutKeystream calls interleaved; the record lengths put on the wire must be the same and the
+// peer must receive the same bytes.
+func c28Framing() *explore.Scenario {
+	return &explore.Scenario{
+		Name: "framing-with-and-without-the-call",
+		Run: func(x *explore.X) (r explore.Result) {
+			s := c28Suites[x.Choose("suite", len(c28Suites))]
+			n := []int{0, 1, 100, 2000, 16384}[x.Choose("n", 5)]
+			when := x.Choose("when", 3) // the call(s) come 0 before the first write, 1 between the writes, 2 both
+			script := [][]int{{6000}, {100, 6000}, {20000, 3000}, {1, 1, 40000}}[x.Choose("writes", 4)]
+			what := fmt.Sprintf("suite %04x vers %04x GetOutKeystream(%d) placement %d writes %v", s.id, s.vers, n, when, script)
+			run := func(withCalls bool) (lens []int, got []byte, err error) {
+				f := peer.Fix()
+				cert := f.ECDSA
+				if s.cert == "rsa" {
+					cert = f.RSA
+				}
+				scfg := peer.ServerConfig(cert)
+				scfg.MaxVersion = s.vers
+				if s.vers == tls.VersionTLS12 {
+					scfg.CipherSuites = []uint16{s.id}
+				}
+				received := new(bytes.Buffer)
+				ccfg := peer.ClientConfig("example.com")
+				ccfg.Time = func() time.Time { return peer.Now } // the sizing ramp restarts after a second of idleness: frozen clock
+				hs := peer.Run(ccfg, tls.HelloCustom, scfg, peer.Opts{KeepOpen: true,
+					Prepare:     func(u *tls.UConn) error { return u.ApplyPreset(singleSuiteSpec(s)) },
+					ServerAfter: func(c *tls.Conn) error { _, err := io.Copy(received, c); return err }})
+				defer hs.Finish()
+				if !hs.OK() {
+					return nil, nil, fmt.Errorf("handshake: %v / %v", hs.CErr, hs.SErr)
+				}
+				before := hs.CE.WriteCount()
+				for i, sz := range script {
+					if withCalls && ((i == 0 && when != 1) || (i > 0 && when != 0)) {
+						if _, err := hs.U.GetOutKeystream(n); err != nil {
+							return nil, nil, err
+						}
+					}
+					if _, err := hs.U.Write(payload(sz, byte(i))); err != nil {
+						return nil, nil, err
+					}
+				}
+				var stream []byte
+				for _, w := range hs.CE.Writes[before:] {
+					stream = append(stream, w...)
+				}
+				for len(stream) >= 5 {
+					l := int(stream[3])<<8 | int(stream[4])
+					lens = append(lens, l)
+					if 5+l > len(stream) {
+						break
+					}
+					stream = stream[5+l:]
+				}
+				hs.U.Close()
+				hs.Finish()
+				return lens, received.Bytes(), nil
+			}
+			l0, g0, e0 := run(false)
+			l1, g1, e1 := run(true)
+			r.Nontrivial = true
+			r.Class = what
+			if e0 != nil || e1 != nil {
+				r.Violate("C28|framing|error", "%s: %v / %v", what, e0, e1)
+				return
+			}
+			if fmt.Sprint(l0) != fmt.Sprint(l1) {
+				r.Violate(fmt.Sprintf("C28|framing|record-lengths-differ|vers=%04x", s.vers), "%s: records without the call %v, with it %v", what, l0, l1)
+			}
+			if !bytes.Equal(g0, g1) {
+				r.Violate("C28|framing|peer-received-differs", "%s: the peer received %d bytes without the call and %d with it", what, len(g0), len(g1))
+			}
+			r.Obs = fmt.Sprintf("records=%d|viol=%d", len(l0), len(r.Viol))
+			r.Count("framing_compared", 1)
+			return
+		},
+	}
+}
+
+func c28Scenarios(thorough bool) []*explore.Scenario {
+	return []*explore.Scenario{c28Scenario(), c28Framing()}
+}
 
 func init() {
 	register(&Prop{ID: "C28", Level: "exploration", Variant: "A", Scenarios: c28Scenarios,
 		Run: func(c *explore.Check, thorough bool) {
-			c.Rule = "8 AEAD suites (3 TLS 1.3, 5 TLS 1.2 incl. static-RSA GCM and both ChaCha20) x n in {0..64,255,256,1000,16384} x sequence position {0,1,2,300 records written before} x call pattern {once, twice, a 4096-byte call then twice} x (TLS 1.3) key epoch {first, after a KeyUpdate that followed the same calls at the same position}: keystream[:n] XOR plaintext == ciphertext of the next application-data record after the explicit nonce, and the peer receives exactly the bytes sent. distinct = (suite, position, pattern, n)"
+			c.Rule = "8 AEAD suites (3 TLS 1.3, 5 TLS 1.2 incl. static-RSA GCM and both ChaCha20) x n in {0..64,255,256,1000,16384} x sequence position {0,1,2,300 records written before} x call pattern {once, twice, a 4096-byte call then twice} x (TLS 1.3) key epoch {first, after a KeyUpdate that followed the same calls at the same position}: keystream[:n] XOR plaintext == ciphertext of the next application-data record after the explicit nonce, and the peer receives exactly the bytes sent; with dynamic record sizing on: 8 suites x n {0,1,100,2000,16384} x call placement {before the first write, between writes, both} x 4 write scripts (up to 40000 bytes), the same connection script run with and without the calls puts the same record lengths on the wire. distinct = (suite, position, pattern, n)"
 			c.Assumptions = []string{"the suite is pinned by a custom spec offering exactly that suite; legacy ChaCha20 code points are not negotiable with the utls server and are covered for data transfer by C27"}
 			runAll(c, c28Scenarios(thorough), 0)
 		}})
